@@ -409,6 +409,23 @@ void run_vyukov(int mode, int capacity, const ExecCtx& ctx, ExecOut& out) { // m
     mrec.end(o);
     h.ops.push_back(o);
   };
+  // shaped programs (a third of the iterator executions on maps with extension buckets): every key is present, so the later keys live
+  // in extension items; one of those is removed again (its pooled item keeps the stale key), the traverser erases at the late
+  // positions of the bucket (extension items, the last one in particular) and the readers look for the removed / the late keys
+  const bool shaped = big && mode == 1 && nkeys >= 5 && rng.chance(1, 3);
+  int stale_key = 0;
+  if (shaped) {
+    for (int k = 1; k <= nkeys; ++k)
+      main_op(V_EMPLACE, k, next_val++);
+    stale_key = rng.range(4, nkeys);
+    main_op(rng.chance(1, 2) ? V_EXTRACT : V_ERASE, stale_key, 0);
+    if (rng.chance(1, 3)) {
+      int k2 = rng.range(4, nkeys);
+      if (k2 != stale_key)
+        main_op(V_ERASE, k2, 0);
+    }
+    counters().add("shaped_extension_programs");
+  } else
   for (int k = 1; k <= nkeys; ++k)
     if (rng.chance(big ? 3 : 1, big ? 4 : 2))
       main_op(V_EMPLACE, k, next_val++);
@@ -422,6 +439,8 @@ void run_vyukov(int mode, int capacity, const ExecCtx& ctx, ExecOut& out) { // m
     if (mode == 1 && t == 0) {
       w.traverser = true;
       w.erase_mask = rng.chance(1, 2) ? (int)rng.below(256) : 0;
+      if (shaped)
+        w.erase_mask = rng.chance(1, 2) ? 0xF8 : (1 << rng.range(2, nkeys - 2)) | (rng.chance(1, 2) ? 1 << rng.range(2, nkeys - 2) : 0);
       continue;
     }
     int nops = rng.range(1, mode == 1 ? 5 : 6);
@@ -432,7 +451,10 @@ void run_vyukov(int mode, int capacity, const ExecCtx& ctx, ExecOut& out) { // m
                      : r < 92 ? V_FIND : V_FIND_ERASE_IT;
       if (reader_only)
         kind = V_TRYGET;
-      w.prog.push_back(POp{kind, rng.range(1, nkeys), next_val++});
+      int key = rng.range(1, nkeys);
+      if (shaped && rng.chance(2, 3))
+        key = rng.chance(1, 2) ? stale_key : rng.range(4, nkeys);
+      w.prog.push_back(POp{kind, key, next_val++});
     }
     w.recs.resize(w.prog.size());
   }
